@@ -43,7 +43,7 @@ def prog_str(progs):
     return ';'.join(','.join('%s%d' % op for op in ops) or '-' for ops in progs) or '-'
 
 
-def scenario(C, E, progs, choose, transport='plain', capw=300, capr=50):
+def scenario(C, E, progs, choose, transport='plain', capw=300, capr=50, fine=False):
     """run one scenario to completion; returns dict(log, ran, wire bytes, …)"""
     from minecraft.networking.packets import serverbound
     rng_dummy = None
@@ -57,6 +57,9 @@ def scenario(C, E, progs, choose, transport='plain', capw=300, capr=50):
                 S.before('fail')
                 S.emit('fail')
             self.release()
+            if fine and S.me() is not None:      # fine-grained mode: a preemption point right AFTER the release
+                S.before('post')
+                S.emit('post')
     IDeque = SC.make_deque_class(S, pid_of)
     saved = (C.RLock, C.deque, C.select, C.Connection._write_packet)
     C.RLock, C.deque, C.select = FLock, IDeque, SC.make_select(S)
@@ -68,7 +71,22 @@ def scenario(C, E, progs, choose, transport='plain', capw=300, capr=50):
     C.Connection._write_packet = _wp
     INT = SC.make_nt_class(S, C)
     try:
-        conn = C.Connection('h', 1, username='u', allowed_versions={757})
+        Conn = C.Connection
+        if fine:
+            class Conn(C.Connection):        # every access to the shared `socket` attribute is a preemption point
+                def _g(self):
+                    if S.me() is not None:
+                        S.before('sock')
+                        S.emit('sock', 'r')
+                    return self.__dict__.get('_sock')
+
+                def _s(self, v):
+                    if S.me() is not None:
+                        S.before('sock')
+                        S.emit('sock', 'w')
+                    self.__dict__['_sock'] = v
+                socket = property(_g, _s)
+        conn = Conn('h', 1, username='u', allowed_versions={757})
         attached = isinstance(conn._write_lock, FLock)
         isock = SC.ISock(S)
         conn.socket = isock
@@ -103,7 +121,9 @@ def scenario(C, E, progs, choose, transport='plain', capw=300, capr=50):
                         try:
                             conn.write_packet(pk, force=(kind == 'f'))
                         except AttributeError:
-                            pass                     # forced write after the socket was closed
+                            pass                     # forced write after the socket was closed (socket is None)
+                        except OSError as e:
+                            caller_errors.append((tid, 'write', repr(e)))
                         except Exception as e:
                             caller_errors.append((tid, 'write', repr(e)))
             return SC.user_thread(S, tid, body)
@@ -228,6 +248,24 @@ def run(ctx):
             return rng.choice(en)
         r = scenario(C, E, progs, choose, transport)
         record(ctx, progs, r, transport, lines, impl, 'random walk')
+    # ---- fine-grained walks (oracle only, not replayed through the model): extra preemption points right
+    # after every lock release and at every access to the shared `socket` attribute, i.e. inside the
+    # regions the model treats as atomic
+    for i in range(ctx.scale(250, 3000)):
+        progs = gen_programs(rng, nthreads=rng.randint(2, 3))
+        bias = rng.random()
+
+        def choose(en, n, bias=bias):
+            if 0 in en and rng.random() < bias * 0.5:
+                return 0
+            return rng.choice(en)
+        r = scenario(C, E, progs, choose, 'plain', fine=True)
+        ctx.case(('fine', prog_str(progs), tuple(r['ran'])), sample={'programs': prog_str(progs), 'steps': len(r['ran']), 'kind': 'fine-grained'})
+        ctx.count('fine_grained_walks')
+        oracle(ctx, progs, r, 'plain', 'fine-grained walk')
+        if r['errors']:
+            ctx.violation('a thread raised: %r' % (r['errors'][:2],), {'programs': prog_str(progs), 'schedule': r['ran']},
+                          key={'programs': prog_str(progs), 'schedule': r['ran'], 'kind': 'thread-error'})
     # ---- systematic: all schedules of small scenarios up to a preemption bound (DFS over choices)
     if ctx.thorough or ctx.searching:
         small = [[[('q', 1), ('d', 0)], [('f', 2)]], [[('f', 1), ('q', 2)], [('d', 1)]],
